@@ -101,7 +101,8 @@ def export(config="base", repo=None):
         lock.close()
     if r.returncode != 0:
         sys.stderr.write(r.stdout)
-        raise SystemExit("cargo check of %s (%s) failed: the tree does not compile" % (repo, config))
+        sys.stderr.write("cargo check of %s (%s) failed: the tree does not compile\n" % (repo, config))
+        raise SystemExit(3)
     if not os.path.exists(out):
         sys.stderr.write(r.stdout)
         raise SystemExit("mirfacts wrote no fact file (wrapper skipped?)")
